@@ -37,6 +37,10 @@ CHECKS['C13'] = dict(cat='other',
     tech='CrossHair/z3: every AST node position is a symbolic affine expression of layout parameters (derived from and validated against the real parser); real extractor / bisect / Location comparisons run on symbolic positions; differential against the canonical layout',
     text='Bounded symbolic execution: for each shape, naming and layout structure (enumerated), the numeric layout parameters (blank/comment lines, indentation width, continuation indent, extra spaces) are solver variables; every read must resolve to the same alternatives as in the one-statement-per-line layout for all parameter values. Sampled concrete layouts are additionally pushed through real lint (codes and messages in order).',
     note='layout structures (which statements are joined/one-lined/broken) enumerated; positions from an affine model validated against ast.parse each run; find_id_loc stubbed (C11); identifiers concrete.', ref='3/C13')
+CHECKS['C12'] = dict(cat='other',
+    tech='CrossHair/z3: (a) real assist() on a symbolic line left of the cursor (all strings up to the bound, all of Unicode) vs longest-identifier-suffix reference; (b,c) solver-enumerated cursor positions through real assist() vs the unmarked analysis',
+    text='(a) is genuinely symbolic: the text left of the cursor is a solver variable and the whole of assist() runs on it; confirmed = no string of the bounded length yields a prefix other than the identifier characters left of the cursor. (b),(c) are solver-enumerated over a program family: every offset inside/at the end of every name read, attribute and import name gives the exact prefix, sorted duplicate-free marker-free proposals, equal to what the analysis of the unmarked source makes visible.',
+    note='(a) Source replaced by a harness object (symbolic line, empty tree), project stubbed; (b,c) each path is one concrete run; real-file corpus outside.', ref='3/C12')
 NA = {}
 
 def main():
